@@ -1,6 +1,359 @@
+//! C09 — densification only copies populated bins, is idempotent, and terminates (history monitor with hooks)
 use crate::common::*;
+use crate::gen::*;
+use fnv::FnvHasher;
+use probminhash::densminhash::{OptDensMinHash, RevOptDensMinHash};
+use rand::Rng as _;
+use rayon::prelude::*;
+use serde_json::{json, Value};
+use std::cell::Cell;
+use std::collections::{HashMap, HashSet};
+use std::hash::{BuildHasher, BuildHasherDefault};
+
+type Raw = (Vec<u64>, Vec<u64>, Vec<bool>, i64); // float bits, hashes, populated flags, nb_empty
+
+trait Dens {
+    fn sketch(&mut self, d: u64);
+    fn sketch_slice(&mut self, ds: &[u64]) -> Result<(), String>;
+    fn end_sketch(&mut self);
+    fn reinit(&mut self);
+    fn raw(&self) -> Raw;
+    fn views(&self) -> (Vec<u64>, Vec<u64>, Vec<u32>);
+}
+
+macro_rules! impl_dens {
+    ($t:ident, $f:ty) => {
+        impl Dens for $t<$f, u64, FnvHasher> {
+            fn sketch(&mut self, d: u64) {
+                $t::sketch(self, &d)
+            }
+            fn sketch_slice(&mut self, ds: &[u64]) -> Result<(), String> {
+                $t::sketch_slice(self, ds).map_err(|e| e.to_string())
+            }
+            fn end_sketch(&mut self) {
+                $t::end_sketch(self)
+            }
+            fn reinit(&mut self) {
+                $t::reinit(self)
+            }
+            fn raw(&self) -> Raw {
+                let (h, v, i, n) = self.verif_raw_state();
+                (h.iter().map(|x| (*x as f64).to_bits()).collect(), v, i, n)
+            }
+            fn views(&self) -> (Vec<u64>, Vec<u64>, Vec<u32>) {
+                (self.get_hsketch().iter().map(|x| (*x as f64).to_bits()).collect(), self.get_hsketch_u64(), self.get_hsketch_u32())
+            }
+        }
+    };
+}
+impl_dens!(OptDensMinHash, f32);
+impl_dens!(OptDensMinHash, f64);
+impl_dens!(RevOptDensMinHash, f32);
+impl_dens!(RevOptDensMinHash, f64);
+
+fn make(kind: usize, m: usize) -> Box<dyn Dens> {
+    match kind {
+        0 => Box::new(OptDensMinHash::<f32, u64, FnvHasher>::new(m, Default::default())),
+        1 => Box::new(OptDensMinHash::<f64, u64, FnvHasher>::new(m, Default::default())),
+        2 => Box::new(RevOptDensMinHash::<f32, u64, FnvHasher>::new(m, Default::default())),
+        _ => Box::new(RevOptDensMinHash::<f64, u64, FnvHasher>::new(m, Default::default())),
+    }
+}
+const KNAMES: [&str; 4] = ["OptDensMinHash<f32>", "OptDensMinHash<f64>", "RevOptDensMinHash<f32>", "RevOptDensMinHash<f64>"];
+
+// ---- logical-step termination monitor
+thread_local! {
+    static FUTILE_STEPS: Cell<u64> = const { Cell::new(0) };
+    static TOTAL_STEPS: Cell<u64> = const { Cell::new(0) };
+}
+const SPIN_MSG: &str = "verif-monitor: densification spun with zero populated bins (nothing can ever be copied)";
+
+fn densify_cb(populated: usize, m: usize) {
+    TOTAL_STEPS.with(|c| c.set(c.get() + 1));
+    if populated == 0 {
+        let n = FUTILE_STEPS.with(|c| {
+            c.set(c.get() + 1);
+            c.get()
+        });
+        if n > 64 * m as u64 + 1000 {
+            panic!("{}", SPIN_MSG);
+        }
+    }
+}
+
+/// runs a finishing call under the termination monitor. Ok(()) returned normally, Err(msg) it reported failure by panicking.
+/// A panic carrying SPIN_MSG means the loop was provably futile (hang).
+fn guarded<F: FnOnce() -> Result<(), String>>(f: F) -> Result<Result<(), String>, String> {
+    FUTILE_STEPS.with(|c| c.set(0));
+    catch(std::panic::AssertUnwindSafe(f))
+}
+
+fn check_finish(pre: &Raw, post: &Raw) -> Result<(), (String, String)> {
+    let m = pre.0.len();
+    if post.3 != 0 || post.2.iter().any(|x| !x) {
+        return Err(("C09/not-finished".into(), format!("after finishing, {} bins are still marked empty (nb_empty={})", post.2.iter().filter(|x| !**x).count(), post.3)));
+    }
+    let populated: HashSet<(u64, u64)> = (0..m).filter(|&k| pre.2[k]).map(|k| (pre.0[k], pre.1[k])).collect();
+    for k in 0..m {
+        if pre.2[k] {
+            if (post.0[k], post.1[k]) != (pre.0[k], pre.1[k]) {
+                return Err(("C09/populated-bin-overwritten".into(), format!("bin {} had received an item (value bits {:#x}, hash {:#x}) but holds ({:#x}, {:#x}) after finishing", k, pre.0[k], pre.1[k], post.0[k], post.1[k])));
+            }
+        } else if !populated.contains(&(post.0[k], post.1[k])) {
+            return Err(("C09/copy-not-from-populated-bin".into(), format!("empty bin {} was filled with (value bits {:#x}, hash {:#x}) which is not the pair of any bin populated before finishing", k, post.0[k], post.1[k])));
+        }
+    }
+    Ok(())
+}
+
+fn nb_empty_consistent(r: &Raw) -> bool {
+    r.3 == r.2.iter().filter(|x| !**x).count() as i64
+}
+
+struct HistOut {
+    nops: u64,
+    nfinish: u64,
+    nempty_finish: u64,
+    fail: Option<(String, String)>,
+    ops: Vec<Value>,
+    triples: Vec<(u64, u64, u32)>,
+    steps: u64,
+}
+
+fn history(kind: usize, m: usize, seed: u64, len: usize) -> HistOut {
+    let mut rng = rng_from(seed);
+    let mut out = HistOut { nops: 0, nfinish: 0, nempty_finish: 0, fail: None, ops: vec![], triples: vec![], steps: 0 };
+    probminhash::verif::set_densify_callback(Some(densify_cb));
+    TOTAL_STEPS.with(|c| c.set(0));
+    let bh = BuildHasherDefault::<FnvHasher>::default();
+    let mut real = make(kind, m);
+    let mut twin = make(kind, m);
+    let mut streamed: HashSet<u64> = HashSet::new(); // hashes of items streamed since the last reinit
+    let npool = rng.random_range(1..60);
+    let pool = fresh_ids(&mut rng, npool, 0);
+    macro_rules! fail {
+        ($k:expr, $w:expr) => {{
+            out.fail = Some(($k.to_string(), $w));
+            out.steps = TOTAL_STEPS.with(|c| c.get());
+            probminhash::verif::set_densify_callback(None);
+            return out;
+        }};
+    }
+    for step in 0..len {
+        let c = rng.random_range(0..100);
+        out.nops += 1;
+        if c < 45 {
+            // item-wise sketch
+            let d = if rng.random_range(0..3) == 0 { pool[rng.random_range(0..pool.len())] } else { fresh_ids(&mut rng, 1, 0)[0] };
+            real.sketch(d);
+            twin.sketch(d);
+            streamed.insert(bh.hash_one(d));
+            if out.ops.len() < 40 {
+                out.ops.push(json!(["sketch", d]));
+            }
+        } else if c < 70 {
+            // slice (possibly empty) on the real sketcher; item-wise + end_sketch on the twin
+            let n = match rng.random_range(0..6) {
+                0 => 0,
+                1 => 1,
+                2 => rng.random_range(1..4),
+                3 => rng.random_range(1..(m / 4).max(2)),
+                4 => rng.random_range(1..(2 * m).max(2)),
+                _ => rng.random_range(1..(20 * m).clamp(2, 5000)),
+            };
+            let ds: Vec<u64> = (0..n).map(|_| if rng.random_range(0..4) == 0 { pool[rng.random_range(0..pool.len())] } else { fresh_ids(&mut rng, 1, 0)[0] }).collect();
+            if out.ops.len() < 40 {
+                out.ops.push(json!(["sketch_slice", n]));
+            }
+            for d in &ds {
+                twin.sketch(*d);
+                streamed.insert(bh.hash_one(*d));
+            }
+            let pre = twin.raw();
+            let nothing = pre.2.iter().all(|x| !x);
+            out.nfinish += 1;
+            let rt = guarded(|| {
+                twin.end_sketch();
+                Ok(())
+            });
+            let rr = guarded(|| real.sketch_slice(&ds));
+            if nothing {
+                out.nempty_finish += 1;
+                for (who, r) in [("end_sketch", &rt), ("sketch_slice", &rr)] {
+                    match r {
+                        Err(msg) if msg.contains("verif-monitor") => fail!("C09/empty-stream-hang", format!("step {}: {} on a sketcher that received nothing never terminates: {}", step, who, msg)),
+                        Ok(Ok(())) => fail!("C09/empty-stream-not-reported", format!("step {}: {} on a sketcher that received nothing returned normally instead of reporting failure", step, who)),
+                        _ => {} // Err(panic message) or Ok(Err(..)) : failure reported
+                    }
+                }
+                // start again from a clean state
+                real.reinit();
+                twin.reinit();
+                streamed.clear();
+                continue;
+            }
+            match (&rt, &rr) {
+                (Ok(Ok(())), Ok(Ok(()))) => {}
+                _ => fail!("C09/finish-failed", format!("step {}: finishing a non-empty sketch failed: end_sketch -> {:?}, sketch_slice -> {:?}", step, rt, rr)),
+            }
+            let post = twin.raw();
+            if let Err((k, w)) = check_finish(&pre, &post) {
+                fail!(k, format!("step {}: {}", step, w));
+            }
+            let rraw = real.raw();
+            if rraw != post {
+                fail!("C09/slice-differs-from-itemwise", format!("step {}: sketch_slice of {} items differs from item-wise sketch + end_sketch", step, n));
+            }
+        } else if c < 90 {
+            // end_sketch on both, then once more on the twin (idempotence)
+            if out.ops.len() < 40 {
+                out.ops.push(json!(["end_sketch"]));
+            }
+            let pre = real.raw();
+            let nothing = pre.2.iter().all(|x| !x);
+            out.nfinish += 1;
+            let rr = guarded(|| {
+                real.end_sketch();
+                Ok(())
+            });
+            let rt = guarded(|| {
+                twin.end_sketch();
+                Ok(())
+            });
+            if nothing {
+                out.nempty_finish += 1;
+                match &rr {
+                    Err(msg) if msg.contains("verif-monitor") => fail!("C09/empty-stream-hang", format!("step {}: end_sketch on a sketcher that received nothing never terminates: {}", step, msg)),
+                    Ok(Ok(())) => fail!("C09/empty-stream-not-reported", format!("step {}: end_sketch on a sketcher that received nothing returned normally instead of reporting failure", step)),
+                    _ => {}
+                }
+                real.reinit();
+                twin.reinit();
+                streamed.clear();
+                continue;
+            }
+            if !matches!((&rr, &rt), (Ok(Ok(())), Ok(Ok(())))) {
+                fail!("C09/finish-failed", format!("step {}: end_sketch on a non-empty sketch failed: {:?}", step, rr));
+            }
+            let post = real.raw();
+            if let Err((k, w)) = check_finish(&pre, &post) {
+                fail!(k, format!("step {}: {}", step, w));
+            }
+            let _ = guarded(|| {
+                twin.end_sketch();
+                Ok(())
+            });
+            if twin.raw() != post {
+                fail!("C09/end-sketch-not-idempotent", format!("step {}: calling end_sketch twice differs from calling it once", step));
+            }
+        } else {
+            real.reinit();
+            twin.reinit();
+            streamed.clear();
+            if out.ops.len() < 40 {
+                out.ops.push(json!(["reinit"]));
+            }
+            let r = real.raw();
+            if r.2.iter().any(|x| *x) || r.3 != m as i64 {
+                fail!("C09/reinit", format!("step {}: reinit leaves populated bins", step));
+            }
+        }
+        // invariants after every operation
+        let r = real.raw();
+        if !nb_empty_consistent(&r) {
+            fail!("C09/nb-empty", format!("step {}: nb_empty = {} but {} bins are not populated", step, r.3, r.2.iter().filter(|x| !**x).count()));
+        }
+        for k in 0..m {
+            if r.2[k] && !streamed.contains(&r.1[k]) {
+                fail!("C09/foreign-hash", format!("step {}: bin {} holds {:#x} which is not the hash of a streamed item", step, k, r.1[k]));
+            }
+        }
+        // finished sketch: views
+        if r.3 == 0 {
+            let (f, u, w) = real.views();
+            if f != r.0 || u != r.1 {
+                fail!("C09/views", format!("step {}: the views differ from the internal state", step));
+            }
+            if out.triples.len() < 4000 {
+                for k in 0..m.min(64) {
+                    out.triples.push((u[k], f[k], w[k]));
+                }
+            }
+        }
+    }
+    out.steps = TOTAL_STEPS.with(|c| c.get());
+    probminhash::verif::set_densify_callback(None);
+    out
+}
 
 pub fn run(rep: &mut Report) {
-    let _ = rep;
-    eprintln!("C09 not implemented yet");
+    quiet_panics();
+    rep.rule = "random operation histories over {sketch(d), sketch_slice(ds incl. empty), end_sketch, reinit} (length <= 40, m in 1..512, both algorithms, f32/f64) run on the real sketcher and on a twin that replaces every slice call by item-wise calls + end_sketch; raw state (hook) snapshotted before/after every finishing step: populated bins untouched, every other bin = pair of a bin populated before, nb_empty == #unpopulated, hashes are hashes of streamed items, slice == item-wise + finish, end_sketch idempotent; termination decided on logical steps by the densify progress hook (a loop with zero populated bins is futile: violation after 64m+1000 steps; with populated bins steps are only counted); across all finished sketches u64->u32 and u64->float must be functions. Distinct = (kind, m, seed) histories; non-trivial when a finishing step was observed".into();
+    let nh: u64 = rep.tier.pick(40_000, 1_500_000);
+    let seed = subseed(rep.seed, "C09", &[]);
+    let only = rep.only_cell.clone();
+    let res: Vec<(u64, usize, usize, Result<HistOut, String>)> = (0..nh)
+        .into_par_iter()
+        .filter(|i| only.as_ref().map(|c| c == &format!("hist{}", i) || c == "hist").unwrap_or(true))
+        .map(|i| {
+            let mut rng = rng_from(mix(&[seed, i, 1]));
+            let kind = (i % 4) as usize;
+            let m = match rng.random_range(0..8) {
+                0 => 1,
+                1 => 2,
+                2 => 3,
+                3 | 4 => rng.random_range(4..32),
+                5 | 6 => rng.random_range(32..200),
+                _ => rng.random_range(200..513),
+            };
+            let len = rng.random_range(3..=40);
+            let s = mix(&[seed, i, 2]);
+            (i, kind, m, catch(move || history(kind, m, s, len)))
+        })
+        .collect();
+    let mut u32map: HashMap<u64, u32> = HashMap::new();
+    let mut f32map: HashMap<u64, u64> = HashMap::new();
+    let mut f64map: HashMap<u64, u64> = HashMap::new();
+    let mut total_steps = 0u64;
+    for (i, kind, m, r) in res {
+        let cell = format!("hist{}", i);
+        match r {
+            Ok(h) => {
+                rep.evaluations += h.nops;
+                rep.count("histories", 1);
+                rep.count("finishing_steps_checked", h.nfinish);
+                rep.count("finishing_steps_on_empty_stream", h.nempty_finish);
+                total_steps += h.steps;
+                if h.nfinish > 0 {
+                    rep.distinct.insert(mix(&[i, kind as u64, m as u64]));
+                }
+                let case = json!({"sketcher": KNAMES[kind], "m": m, "first_ops": h.ops});
+                if i < 3 {
+                    rep.sample(case.clone());
+                }
+                if let Some((k, w)) = h.fail {
+                    rep.violation(&k, &cell, format!("{} m={}: {}", KNAMES[kind], m, w), case);
+                }
+                for (u, f, w) in h.triples {
+                    if let Some(prev) = u32map.insert(u, w) {
+                        if prev != w {
+                            rep.violation("C09/u32-view-not-a-function-of-u64-view", &cell, format!("hash {:#x} is shown as {:#x} and as {:#x} in the u32 view", u, prev, w), json!({"hash": u}));
+                        }
+                    }
+                    let fm = if kind % 2 == 0 { &mut f32map } else { &mut f64map };
+                    if let Some(prev) = fm.insert(u, f) {
+                        if prev != f {
+                            rep.violation("C09/float-view-not-a-function-of-u64-view", &cell, format!("hash {:#x} carries float value bits {:#x} and {:#x} in two sketches", u, prev, f), json!({"hash": u}));
+                        }
+                    }
+                }
+            }
+            Err(p) => rep.violation("C09/panic", &cell, format!("{} m={}: unexpected panic outside a finishing call: {}", KNAMES[kind], m, p), json!({"history": i})),
+        }
+    }
+    rep.count("densify_search_steps_observed", total_steps);
+    rep.count("view_table_entries", (u32map.len() + f32map.len() + f64map.len()) as u64);
+    collect_ticks(rep);
+    rep.assumptions.push("termination is decided only for the empty stream, where futility is a logical fact; with populated bins the search steps are counted, not judged".into());
+    rep.assumptions.push("reporting failure = returning Err or panicking with a message".into());
 }
